@@ -65,7 +65,8 @@ CHECKS = {
         ref="§4 C06", technique="Lean 4 proof + decide on generated tables + exhaustive correspondence",
         note=NOTE + "Float halving per input."),
     "C07": dict(
-        text="flow_add, flow_zero, flow_linear, flow_split, companions proved for the shipped dataset over the reals; real "
+        text="flow_add, flow_zero, flow_linear, flow_split / flow_split_perm (any number and order of pieces), flow_smul, flow_sub, "
+             "flow_combination, flow_split_combination, companions proved for the shipped dataset over the reals; real "
              "chained/split/linear/companion decays of both classes compared with each other and with the verified oracle.",
         ref="§4 C07", technique=PROOF_DECAY, note=NOTE + "Float/HP deviations per input."),
     "C09": dict(
